@@ -19,9 +19,18 @@ P = {
  'C08': ('Theorems about ResolveState (depth bound, loop error soundness; coq/Props/C08.v) + differential run on cyclic/acyclic reference graphs, sharing and chains around the limit 64.', 'state invariants by induction on fuel + correspondence'),
  'C09': ('Theorems about insert_impl / Mapping::merge and constant keys (coq/Props/C09.v) + differential run with Spec/DeepMerge.v as oracle.', 'local laws of insert_impl + deep-merge specification + correspondence'),
  'C10': ('Theorems about override keys in insert_impl / Mapping::merge (coq/Props/C10.v) + differential run with Spec/DeepMerge.v as oracle.', 'local laws of insert_impl + deep-merge specification + correspondence'),
+ 'C11': ('No-panic theorems for the modelled pipeline from the YAML AST on (coq/Props/C11.v; every todo!/unreachable!/unwrap/panic! site on a modelled path is an outcome of the model) + crash-freedom streams (AST fuzz, byte-level files, deep inputs, file-system faults) with panic capture and process-death attribution. PARTIAL: byte-level YAML parsing, file-system faults and stack exhaustion live in libraries/runtime and are covered by the correspondence run only.', 'panic sites as outcomes + unreachability lemmas + crash-freedom runs'),
+ 'C12': ('Theorems that inventory aggregation is invariant under every permutation of worker results and that each entry is the single-node render (coq/Props/C12.v) + renders under rayon pools of 1..16 threads, repeated and shuffled. PARTIAL: absence of shared mutable state across threads is a runtime fact covered by the differential runs and a static audit only.', 'permutation invariance + multi-pool differential runs'),
+ 'C13': ('Theorems about the aggregation loop of the model (indexes are the sorted exact inverse; fails iff a node fails; coq/Props/C13.v) + differential run through the index accessor hook with an inverse-index oracle on the implementation output.', 'loop invariant by induction over the result list + correspondence'),
+ 'C14': ('Theorems about name derivation and duplicate detection (coq/Props/C14.v) + random directory trees compared with the model and with a Python reading of the naming rule. PARTIAL: walkdir / symlink following / std::path are the trusted bridge from a real directory to the entry list.', 'functional specification + induction over the entry list + correspondence'),
+ 'C15': ('Theorems about abs_class_name (coq/Props/C15.v) + exhaustive small-scope comparison through the hook + relative/absolute twin inventories.', 'structural lemmas on dot counting + exhaustive correspondence + twins'),
+ 'C16': ('Theorems about read_class with the ignore flag and pattern oracle (coq/Props/C16.v) + twin inventories with/without the missing include under a flag x pattern matrix.', 'case analysis on read_class + twins + correspondence'),
+ 'C18': ('Theorems about as_reclass / node metadata (coq/Props/C18.v) + node files over depth x dots x underscores x composition x compat flag with a Python reading of the property as oracle.', 'functional specification + correspondence'),
+ 'C19': ('Theorems about the conversion to a Python object algebra with Python dict semantics (coq/Props/C19.v) + embedded-CPython runs comparing Python objects with the Rust-side rendered data and as_dict() with attribute views. PARTIAL: PyO3 primitive conversions and exception mapping are covered by the embedded-CPython runs only. Known findings: Python key collisions (True/1), unhashable keys.', 'object-algebra model + structural induction + embedded CPython correspondence'),
+ 'C20': ('Theorems about the configuration state machine (entry points agree, reported = compiled after every history incl. failed calls; coq/Props/C20.v) + histories and three-entry-point option sets through Rust and Python (Config.from_dict) with reported-vs-behaviour oracle.', 'state-machine invariant over operation sequences + correspondence'),
  'C17': ('Theorems in coq/Props/C17.v (invariant over every sequence of loaded and merged application lists; exact post-conditions of ~x on a present / absent item and of an addition after a remembered negation; merge = replay in order) hold for all lists of any length; tied to src/list/*.rs by an exhaustive small-scope + random differential run through the hook.', 'induction over operation sequences (invariants) + exhaustive correspondence'),
 }
-PENDING = ['C11', 'C12', 'C13', 'C14', 'C15', 'C16', 'C18', 'C19', 'C20']
+PENDING = []
 
 def main():
     hooks = subprocess.run(['git', '-C', '/repo', 'log', '--format=%h %s'], stdout=subprocess.PIPE).stdout.decode().split('\n')
